@@ -260,7 +260,15 @@ pub fn gen_daub(rng: &mut Rng, tier: &Tier) -> Vec<Case> {
             c.push(format!("f 1 {}", crate::gen::rat(rng)));
             c.push(format!("f 2 {} {}", crate::gen::rat(rng), crate::gen::rat(rng)));
             if i == n as i64 && rng.chance(1, 2) {
-                match rng.below(3) {
+                match rng.below(4) {
+                    3 => {
+                        // restarted in place: the states of the inner convolutions overwritten, through their own
+                        // `state_mut`, with those of a pristine filter — afterwards a filter that has seen nothing
+                        c.push("fresh 1 8".into());
+                        c.push("fresh 2 9".into());
+                        c.push("stset 1 8".into());
+                        c.push("stset 2 9".into());
+                    }
                     0 => {
                         c.push("reset 1".into());
                         c.push("reset 2".into());
